@@ -193,7 +193,10 @@ func runC14(r *Run) {
 			}
 			script = append(script, op)
 		}
-		script = append(script, drop("f1"), btOp{Kind: "ReadAll", Table: tbl}, btOp{Kind: "DropAll", Table: tbl}, btOp{Kind: "ReadAll", Table: tbl})
+		nLoad := len(script)
+		script = append(script, btOp{Kind: "DropAll", Table: tbl}, btOp{Kind: "ReadAll", Table: tbl}) // clears 1200 rows
+		script = append(script, script[nLoad-3:nLoad]...)                                             // the same 1200 rows again
+		script = append(script, drop("f1"), btOp{Kind: "ReadAll", Table: tbl})
 		r.Probe("c14.thousands_of_rows")
 		res := runBTSeq(r, seqSpec{Engine: engine, NOps: len(script), FullEvery: 1, Restarts: true,
 			Gen: func(d *draws, m *btModel, i int) btOp { return script[i] }}, clk)
